@@ -25,9 +25,21 @@ class Unsupported(Exception):
     pass
 
 
+def gen_inc():
+    """include/version.h is produced by cmake's configure step; a tree without it gets a stand-in (see lpv.gen_includes)"""
+    if os.path.exists(os.path.join(REPO, "include", "version.h")):
+        return []
+    import tempfile
+    g = os.path.join(tempfile.gettempdir(), "lpv_gen_%d" % os.getpid())
+    os.makedirs(g, exist_ok=True)
+    with open(os.path.join(g, "version.h"), "w") as f:
+        f.write("#pragma once\n#define LIBPOLY_VERSION_MAJOR 0\n#define LIBPOLY_VERSION_MINOR 0\n#define LIBPOLY_VERSION_PATCH 0\n")
+    return ["-I" + g]
+
+
 def clang_json(filt, src=None):
     cmd = ["clang-14", "-fsyntax-only", "-DNDEBUG", "-Xclang", "-ast-dump=json", "-Xclang", "-ast-dump-filter=" + filt,
-           "-I" + os.path.join(REPO, "include"), "-I" + os.path.join(REPO, "src"), src or SRC]
+           "-I" + os.path.join(REPO, "include"), "-I" + os.path.join(REPO, "src")] + gen_inc() + [src or SRC]
     r = subprocess.run(cmd, capture_output=True, text=True)
     txt = r.stdout
     dec = json.JSONDecoder()
